@@ -8,8 +8,11 @@
    a read completes, thread interleaving) is the label sequence itself, over which the
    theorems quantify.  The only OS facts built into [step] (oracle hypotheses, validated on
    real sockets by tools/props/c12.py):
-     (O1) a read BEGUN after the local close of the socket/transport returns no data
-          (EOF or an error);
+     (O1) TLS/Unix: a read BEGUN after the local close of the socket returns no data (EOF or
+          an error).  NOT assumed for SSH: a paramiko channel still hands out the (finite) data
+          it had buffered before the transport was closed, so the worker-exit BOUND is proved
+          for TLS/Unix only; that the worker HAS exited when close() returns (the join) is
+          proved for all three;
      (O2) closing the socket / paramiko transport (or finding the transport already
           inactive) closes the connection towards the peer;
      (O3) join returns "not alive" only after the worker's run() has ended. *)
@@ -238,7 +241,7 @@ Definition step (s : state) (l : label) : option state :=
       match worker s with
       | WReading o =>
           match r with
-          | RData n => if o then Some (w_worker s (after_dispatch n)) else None      (* (O1) *)
+          | RData n => if o || is_ssh (tr s) then Some (w_worker s (after_dispatch n)) else None      (* (O1) *)
           | REof => Some (w_worker s WAfterEof)
           | RErr => Some (w_worker s WRaised)
           end
